@@ -123,6 +123,10 @@ func (c *container) addKv(key, value string) ([]string, bool) {
 	defer c.lock.Unlock()
 
 	c.dirty.Set(true)
+	// the key is re-registered with another value: it no longer stands for the old one
+	if old, ok := c.mapping[key]; ok && old != value {
+		c.doRemoveKey(key)
+	}
 	keys := c.values[value]
 	previous := append([]string(nil), keys...)
 	early := len(keys) > 0
